@@ -29,6 +29,25 @@ def ranged_array(name, lo, hi):
     RANGED[name] = (lo, hi)
 
 
+UF_TABLES = {}   # function name -> (decl, values)
+
+
+def uf_table(values):
+    """A concrete integer table as an uninterpreted function plus ground axioms f(k) = v_k (added to every
+    query in which f occurs).  The symbol is named by the table's content, so two equal tables share it."""
+    vals = [int(v) for v in values]
+    name = "tbl%d_%s" % (len(vals), hashlib.sha1(repr(vals).encode()).hexdigest()[:10])
+    if name not in UF_TABLES:
+        UF_TABLES[name] = (z3.Function(name, z3.IntSort(), z3.IntSort()), vals)
+    f = UF_TABLES[name][0]
+
+    def get(i):
+        if isinstance(i, int):
+            return vals[i]
+        return f(i)
+    return get
+
+
 def range_instances(terms):
     """Instances of the element-range axioms for every `Select(arr, i)` over a registered array occurring in `terms`."""
     out, seen, todo = [], set(), list(terms)
@@ -39,6 +58,10 @@ def range_instances(terms):
             continue
         seen.add(k)
         if z3.is_app(t):
+            if t.num_args() == 1 and t.decl().name() in UF_TABLES and ("uf", t.decl().name()) not in seen:
+                seen.add(("uf", t.decl().name()))
+                f, vals = UF_TABLES[t.decl().name()]
+                out.extend(f(z3.IntVal(k)) == v for k, v in enumerate(vals))
             if z3.is_select(t):
                 a = t.arg(0)
                 if z3.is_const(a) and a.decl().name() in RANGED:
@@ -95,6 +118,21 @@ class Obligation:
                 s.add(a)
             self.smt2 = s.to_smt2()
         return self.smt2
+
+    def freeze(self):
+        """Picklable form (used to build obligations in worker processes)."""
+        return {"cover": isinstance(self, Cover), "prop": self.prop, "func": self.func, "clause": self.clause, "kind": self.kind,
+                "case": self.case, "where": self.where, "note": self.note, "bounded": self.bounded, "tag": self.tag,
+                "smt2": self.query_smt2(), "goal_str": str(self.goal)[:1500]}
+
+    @staticmethod
+    def thaw(d):
+        o = (Cover if d["cover"] else Obligation).__new__(Cover if d["cover"] else Obligation)
+        o.prop, o.func, o.clause, o.kind, o.case, o.where = d["prop"], d["func"], d["clause"], d["kind"], d["case"], d["where"]
+        o.note, o.bounded, o.tag, o.smt2 = d["note"], d["bounded"], d["tag"], d["smt2"]
+        o.assumptions, o.goal, o.inputs, o.range_facts = None, d["goal_str"], {}, []
+        o.status, o.backend, o.time_s, o.reason = None, None, 0.0, ""
+        return o
 
 
 class Cover(Obligation):
@@ -193,6 +231,38 @@ def pool():
     return _POOL
 
 
+_PAR_FN = None
+
+
+def _par_job(i):
+    try:
+        return ("ok", _PAR_FN(i))
+    except BaseException as e:      # noqa
+        import traceback
+        return ("err", "%s: %s\n%s" % (type(e).__name__, e, traceback.format_exc()[-1500:]), type(e).__name__)
+
+
+def par_map(fn, n):
+    """Run fn(0..n-1) in forked worker processes (they inherit the loaded modules); results must be picklable."""
+    global _PAR_FN
+    jobs = int(os.environ.get("VERIF_JOBS", "0")) or min(16, os.cpu_count() or 4)
+    if n <= 1 or jobs <= 1:
+        return [fn(i) for i in range(n)]
+    _PAR_FN = fn
+    with mp.get_context("fork").Pool(min(jobs, n)) as p:
+        res = p.map(_par_job, range(n), chunksize=1)
+    _PAR_FN = None
+    out = []
+    for r in res:
+        if r[0] == "err":
+            if r[2] == "Unsupported":
+                from ..pyvc.values import Unsupported
+                raise Unsupported(r[1].splitlines()[0])
+            raise RuntimeError("worker failed: " + r[1])
+        out.append(r[1])
+    return out
+
+
 def discharge(obls, budget_s, progress=None):
     """Decide every obligation; fills status/backend/time."""
     jobs = []
@@ -217,11 +287,7 @@ def model_of(obl, budget_s=60):
     """Re-solve a failed obligation in-process and return a z3 model (or None)."""
     s = z3.Solver()
     s.set("timeout", int(budget_s * 1000))
-    for a in obl.assumptions:
-        s.add(a)
-    s.add(z3.Not(obl.goal))
-    for a in obl.range_facts:
-        s.add(a)
+    s.from_string(obl.query_smt2())
     if s.check() == z3.sat:
         return s.model()
     return None
@@ -231,11 +297,7 @@ def model_of_excluding(obl, extra, budget_s=60):
     """Model of the failed obligation with `extra` constraints conjoined; returns (status, model)."""
     s = z3.Solver()
     s.set("timeout", int(budget_s * 1000))
-    for a in obl.assumptions:
-        s.add(a)
-    s.add(z3.Not(obl.goal))
-    for a in obl.range_facts:
-        s.add(a)
+    s.from_string(obl.query_smt2())
     for e in extra:
         s.add(e)
     r = s.check()
